@@ -906,20 +906,76 @@ def check_tables(G, impl):
     return tab, viol
 
 
+# ------------------------------------------------------------------ fixed corpus: directed cases, always run first
+
+def _S(test, axis=None, pred=None):
+    return {"dot": True} if test == "." else {"axis": axis, "test": test, "pred": pred}
+
+
+def _P(lead, *steps_and_seps):
+    """_P(lead, step, sep, step, ...)"""
+    return {"lead": lead, "steps": list(steps_and_seps[0::2]), "seps": list(steps_and_seps[1::2])}
+
+
+def _Q(path, aliases=None, trail="", text=None, minimal=True):
+    return {"text": (text if text is not None else render_path(path, minimal, " ")) + trail, "aliases": aliases or {}, "path": path}
+
+
+def corpus():
+    """one graph with nested matches, a pruned branch that reaches a later search region, direct vs provided edges,
+    shadowed provided dependencies; queries that need exactly these features"""
+    G = {"n": 10,
+         "names": ["", "a1", "b", "a2", "w", "c", "z", "x", "x", "lib"],
+         "direct": [[1, 4, 9], [2], [3, 5], [], [6], [6], [7], [], [], [8]],
+         "indirect": [[2], [7, 8], [], [], [], [], [], [], [], [7]],
+         "env": [{}, {"V": "a", "T": "1"}, {"V": "b", "T": "0"}, {"V": "a"}, {"V": "c", "L": "GPL"}, {"V": "a b"}, {"T": ""},
+                 {"V": "a", "L": "MIT"}, {"V": "b"}, {"V": "", "N": "lib"}]}
+    V, A, B = 0, 3, 4          # leaves "$V", 'a', 'b'
+    path_x = ("path", _P(None, _S("x", "direct-child")))
+    qs = [
+        _Q(_P("//", _S("a*"))), _Q(_P(None, _S("a1"), "/", _S("a*", "descendant-or-self"))), _Q(_P("/", _S("a*", "descendant"))),
+        _Q(_P(None, _S("*"), "/", _S("c"), "//", _S("x"))), _Q(_P(None, _S("*"), "/", _S("b"), "/", _S("x", "descendant"))),
+        _Q(_P("//", _S("*", None, path_x))), _Q(_P("//", _S("*", None, ("path", _P(None, _S("x", "direct-descendant")))))),
+        _Q(_P("//", _S("*", None, ("path", _P(None, _S("x", "child")))))), _Q(_P(None, _S("a1"), "/", _S("x", "direct-child"))),
+        _Q(_P(None, _S("a1"), "/", _S("x", "direct-descendant"))), _Q(_P(None, _S("a1", "direct-child"), "/", _S("b", "direct-descendant-or-self"))),
+        _Q(_P("//", _S("*", None, ("cmp", "<=", V, A)))), _Q(_P("//", _S("*", None, ("cmp", "<=", A, V)))),
+        _Q(_P("//", _S("*", None, ("cmp", "<", V, A)))), _Q(_P("//", _S("*", None, ("cmp", ">=", V, B)))),
+        _Q(_P("//", _S("*", None, ("cmp", ">", B, V)))), _Q(_P("//", _S("*", None, ("cmp", "==", V, A)))),
+        _Q(_P("//", _S("*", None, ("cmp", "!=", V, A)))), _Q(_P("//", _S("*", None, ("truth", 1)))),
+        _Q(_P("//", _S("*", None, ("not", ("truth", 1))))), _Q(_P(None, _S("a1")), trail="/"), _Q(_P(None, _S("a1")), trail="//"),
+        _Q(_P("//", _S("x")), trail="///"), _Q(_P("//", _S("*", None, ("path", _P("/", _S("a1")))))),
+        _Q(_P("//", _S("*", None, ("path", _P("/", _S("nope")))))), _Q(_P("//", _S("*", None, ("path", _P(None, _S("a2")))))),
+        _Q(_P("//", _S("*", None, ("path", _P("//", _S("a2")))))), _Q(_P(None, _S("lib"), "/", _S("x"))), _Q(_P(None, _S("a1"), "/", _S("x"))),
+        _Q(_P(None, _S("a1"), "/", _S("b"), "/", _S("a2")), aliases={"al": "a1/b"}, text="al/a2"),
+        _Q(_P("/", _S("al")), aliases={"al": "a1/b"}), _Q(_P(None, _S("nope"))), _Q(_P(None, _S("a1"), "/", _S("nope"))),
+        _Q(_P("//", _S("nope"))), _Q(_P(None, _S("n*"))), _Q(_P(None, _S("a1"), "/", _S("nope", None, ("truth", 1)))),
+        _Q(_P(None, _S("."))), _Q(_P(None, _S("."), "/", _S("a1"))), _Q(_P(None, _S("a1", "self"))), _Q(_P(None, _S("a1"), "/", _S("*", "self"))),
+        _Q(_P(None, _S("a1"), "/", _S("."))), _Q(_P(None, _S("."), "//", _S("x"))), _Q(_P("/", _S("*", "descendant-or-self"), "/", _S("x", "child"))),
+        _Q(_P(None, _S("b"), "//", _S("x"))), _Q(_P("//", _S("b"), "/", _S("*"))),
+        _Q(_P("//", _S("*", None, ("and", ("path", _P(None, _S("x"))), ("or", ("cmp", "==", V, A), ("not", ("path", _P(None, _S("z"))))))))),
+    ]
+    return G, qs
+
+
 def run_graph(job):
     """worker: one graph, its queries, implementation results and oracle verdicts"""
     (key, nq, nmal, tmp, want_all_share) = job
     r = random.Random(key)
-    G = gen_graph(r)
+    fixed = None
+    if key.endswith("corpus"):
+        G, fixed = corpus()
+        nq, nmal, want_all_share = len(fixed), 0, 1.0
+    else:
+        G = gen_graph(r)
     svals = leaf_values(G)
     sem = Sem(G, svals)
     impl = Impl(G, os.path.join(tmp, "g-" + re.sub(r"\W", "_", key)))
     out = {"key": key, "G": G, "svals": svals, "cases": [], "viol": [], "malformed": [], "tables": None}
     try:
         for qi in range(nq):
-            q = gen_query(r, G)
+            q = fixed[qi] if fixed else gen_query(r, G)
             extra_mode = r.choice(MODES)
-            rec, viol = check_case(G, svals, sem, impl, q, extra_mode, r.random() < want_all_share, full=False)
+            rec, viol = check_case(G, svals, sem, impl, q, extra_mode, r.random() < want_all_share, full=bool(fixed))
             if any(sig == "query-hang" for (_, sig) in viol):
                 out["cases"].append(rec)
                 out["viol"] += [{"what": what, "signature": sig, "q": q, "extra_mode": extra_mode} for (what, sig) in viol]
@@ -1015,6 +1071,8 @@ def oracle(ctx):
         # a small first batch calibrates the time per batch on a loaded machine
         batch = [("%s-%d-g%d" % (ctx.prop, ctx.seed, done + i), nq, nmal, ctx.tmp, 0.5)
                  for i in range(min(8 if done == 0 else 16, n_graphs - done))]
+        if done == 0:
+            batch.insert(0, ("%s-corpus" % ctx.prop, 0, 0, ctx.tmp, 1.0))
         done += len(batch)
         for g in ctx.parallel(run_graph, batch):
             _RUN["graphs"].append(g)
